@@ -152,26 +152,36 @@ func c07Universes(name string, lvl int, dirty func(string) bool) [][]string {
 		sort.Strings(ps)
 		return fmt.Sprintf("%s|%s|%v|%v", k, strings.Join(ps, ""), upper, long)
 	}
+	// (W4 and W5 look at the whole clean universe, not only the stride sample)
+	var fullStrs []string
+	for i, x := range u.Strs {
+		if x == strings.TrimSpace(x) && !dirty(x) && !strings.ContainsAny(x, " \t\n") && len(x) < 60 {
+			_ = i
+			fullStrs = append(fullStrs, x)
+		}
+	}
 	{
-		bySig := map[string]int{}
+		bySig := map[string]string{}
+		count := map[string]int{}
 		var sigs []string
-		for i, x := range strs {
+		for _, x := range fullStrs {
 			g := sig(x)
+			count[g]++
 			if _, ok := bySig[g]; !ok {
-				bySig[g] = i
+				bySig[g] = x
 				sigs = append(sigs, g)
 			}
 		}
-		sort.Strings(sigs)
-		var w4 []string
-		usedClass := map[int]bool{}
-		// prefer rarer shapes: iterate signatures from the end of the sorted list (letters, prefixes) first
-		for k := len(sigs) - 1; k >= 0 && len(w4) < 6; k-- {
-			i := bySig[sigs[k]]
-			if !usedClass[cls[i]] || len(sigs) <= 6 {
-				usedClass[cls[i]] = true
-				w4 = append(w4, strs[i])
+		// rarest shapes first (ties: by signature text)
+		sort.Slice(sigs, func(a, b int) bool {
+			if count[sigs[a]] != count[sigs[b]] {
+				return count[sigs[a]] < count[sigs[b]]
 			}
+			return sigs[a] < sigs[b]
+		})
+		var w4 []string
+		for k := 0; k < len(sigs) && len(w4) < 6; k++ {
+			w4 = append(w4, bySig[sigs[k]])
 		}
 		if len(w4) >= 4 {
 			ws = append(ws, w4)
@@ -189,7 +199,7 @@ func c07Universes(name string, lvl int, dirty func(string) bool) [][]string {
 			return x
 		}
 		buckets := map[string][]int{}
-		for i, x := range strs {
+		for i, x := range fullStrs {
 			buckets[coreOf(x)] = append(buckets[coreOf(x)], i)
 		}
 		best := ""
@@ -201,7 +211,7 @@ func c07Universes(name string, lvl int, dirty func(string) bool) [][]string {
 		if b := buckets[best]; len(b) >= 4 {
 			var w5 []string
 			for _, i := range stride(b, 6) {
-				w5 = append(w5, strs[i])
+				w5 = append(w5, fullStrs[i])
 			}
 			ws = append(ws, w5)
 		}
@@ -395,8 +405,8 @@ func c07Unit(name string, tier string) core.Unit {
 					}
 				}
 			}
-			if wi == 0 {
-				r.Sample("list", map[string]any{"eco": name, "universe": w})
+			if wi == 0 || (wi >= 3 && name == "golang") {
+				r.Sample(fmt.Sprintf("list-w%d", wi), map[string]any{"eco": name, "universe": w})
 			}
 		}
 		// distinct class sequences with >1 class = non-trivial multisets
